@@ -74,7 +74,8 @@ def gen(ch, tier):
     long_ = ch.coin(0.7)
     scale = ch.choice([1.0, 1.0, 3.0, 10.0])
     ann = []
-    offset = ch.choice([0.0, 0.0, 2.5, 7.0])
+    # 0: usual; positive: bound_inf may be moved by reset_bounds; negative: the whole timeline lies below zero
+    offset = ch.choice([0.0, 0.0, 2.5, 7.0, -40.0, -300.5])
     for nm in names:
         k = ch.randint(0 if n > 2 else 1, 8)
         units = []
